@@ -70,8 +70,8 @@ SPEC = dict(
     translate=sampler_skel.translate,
     harness_bin="sampler",
     ml_modules=["sampler_model"],
-    n={"quick": 300, "thorough": 5000},
-    search_n={"quick": 600, "thorough": 5000},
+    n={"quick": 300, "thorough": 3000},
+    search_n={"quick": 600, "thorough": 3000},
     nontrivial=nontrivial,
     histogram=histogram,
     rule="Corpus (15 documented-panic configurations, the 30-protein data set of the unit tests x 4, 3 edge "
